@@ -89,18 +89,19 @@ PROPS["C05"] = {
     "follow-up session; other fault kinds (callback returns None / empty text / ill-formed assembly / unknown symbol / "
     "redefinition) are sampled; distinct = (module, sessions) digest; non-trivial = at least one patch callback ran",
     "real_vs_stub": RW_REAL,
+    "interleaving_measure": "distinct (engine step sequence of a session, fault kinds fired, injected fault position k) over all session executions",
     "level_text": "fault enumeration inside seeded exploration: for each sampled scenario every patch-callback position k is failed once (exhaustive per scenario); scenarios themselves are sampled",
     "assumptions": [
         "failure path: only what the property states is demanded (closed, serializable, ir.cfg is the caller's object with the cache's edges, no stranded symbol); nothing about re-joined intervals or addresses",
-        "zero-sized blocks are judged against doc/Deletion.md on the final layout (adjacency at the time of the deletion is approximated by final adjacency)",
+        "zero-sized blocks are judged against doc/Deletion.md as of the deletion: the successor is the successor in the pre-session address order (modifications are applied in address order), incoming control flow is that before or after the session, blocks made during the session do not count as 'other blocks'; blocks that were already zero-sized and sessions that insert functions are not judged",
     ],
 }
 
 PROPS["C06"] = {
     "engine": "rwsim",
     "level": "exploration",
-    "quick_runs": 15000,
-    "thorough_runs": 225000,
+    "quick_runs": 30000,
+    "thorough_runs": 450000,
     "quick_wall": 240,
     "thorough_wall": 2400,
     "params": {"delblock_p": 0.25, "insfn_p": 0.2, "constraints_p": 0.1},
@@ -139,7 +140,7 @@ PROPS["C08"] = {
     "thorough_runs": 225000,
     "quick_wall": 240,
     "thorough_wall": 2400,
-    "params": {"cfi_p": 1.0, "patch_cfi_p": 0.3, "isa": "x64", "fmt": "elf"},
+    "params": {"cfi_p": 1.0, "patch_cfi_p": 0.4, "isa": "x64", "fmt": "elf", "delblock_p": 0.3},
     "rule": "seeded x86-64 ELF scenarios with 0-3 CFI procedures (directives at block starts, instruction boundaries and block "
     "ends, personality/LSDA symbols, remember/restore) and edits at or around directive positions and procedure boundaries, "
     "patches with no or balanced CFI; the input and output cfiDirectives tables are evaluated by the independent reference "
@@ -160,7 +161,7 @@ PROPS["C09"] = {
     "thorough_runs": 150000,
     "quick_wall": 240,
     "thorough_wall": 2400,
-    "params": {"insfn_p": 0.0, "align_p": 0.0, "multi_unit": 0.1},
+    "params": {"insfn_p": 0.0, "align_p": 0.0, "multi_unit": 0.1, "delblock_p": 0.3},
     "rule": "seeded scenarios; the last session is executed twice from a fresh build: all modifications in one apply(), and one "
     "modification per apply() in the engine's order (positions re-derived through token identities); the UUID-free canonical "
     "dumps (temporary-label suffixes normalised) must be equal and an abort in one but not the other is a violation; in "
@@ -225,7 +226,7 @@ PROPS["C18"] = {
     "thorough_runs": 225000,
     "quick_wall": 240,
     "thorough_wall": 2400,
-    "params": {"retarget_p": 0.9, "fwd_p": 0.5, "cfi_p": 0.3, "insfn_p": 0.0, "isa_weights": [70, 30, 0]},
+    "params": {"retarget_p": 0.9, "fwd_p": 0.5, "cfi_p": 0.3, "insfn_p": 0.0, "isa_weights": [70, 30, 0], "retarget_delete_p": 0.25},
     "rule": "seeded scenarios whose sessions contain retarget_symbol_uses requests (A/B internal or external in every "
     "combination, chains, several at once) inside edit histories, PIE and non-PIE, x86-64 ELF/PE and ARM64; the listing model "
     "rewrites every mention of A (code operands, data words) with the independently written attribute-conversion table, CFI "
@@ -243,7 +244,7 @@ PROPS["C19"] = {
     "thorough_runs": 180000,
     "quick_wall": 240,
     "thorough_wall": 2400,
-    "params": {"delsym_p": 0.9, "symtabs_p": 0.9, "fwd_p": 0.6, "cfi_p": 0.4, "insfn_p": 0.0},
+    "params": {"delsym_p": 0.9, "symtabs_p": 0.9, "fwd_p": 0.6, "cfi_p": 0.4, "insfn_p": 0.0, "retarget_p": 0.2, "retarget_delete_p": 0.9},
     "rule": "seeded scenarios (ELF and PE) whose symbols occur in random subsets of elfSymbolInfo, elfSymbolTabIdxInfo, "
     "elfSymbolVersions (shared / unshared version ids and libraries, base definition), functionNames, PE import/export lists, "
     "symbolForwarding keys and values, CFI personality/LSDA and symbolic expressions; sessions delete any number of symbols "
